@@ -60,6 +60,12 @@ claims.update({
    text="No-panic obligations (every index, slice, type assertion, strings.Repeat count, State.Request size, explicit panic) discharged for all token contents and lengths in the hand-written reader code: the GenBank field-name/line/body/subfield/DBLINK/KEYWORDS/SOURCE/REFERENCE/CONTIG/extra-field closures, the ORIGIN fast validator and line-by-line reader, the location parsers (between, range, ambiguous, join, order, list, delimiter), qualifier value parsers, selector splitting, date/molecule/topology parsing; every hand-written loop in them has a variant (termination). The ORIGIN reader is additionally proved to accept a record only with a layout block of exactly the declared number of residues. Five panics / silent acceptances were found and repaired.",
    note=TB+" go-pars primitives and parsers built by combinators are external: tokens are unconstrained, ParseLocation is assumed to yield a Location, function values may write only through their pointer arguments; totality and linear time of the combinator-built parsers, the table/qualifier dispatch closures that rely on pars.Seq result shapes, Scanner error filtering and the 'declared length without ORIGIN' inconsistency (pinned by the test data) are not decided.", design='4/C07'),
 })
+claims.update({
+ 'C14': dict(
+   category='other',
+   text="Reads-frame obligations over all 19 subcommands that call TryCache: every flag/argument value and every secondary input (guest, host, query, feature table, locator, selector ...) that the command reads after TryCache must flow into the payload hashed into the cache key (def-use walk over the typed AST of each command function; 130+ named obligations, one per (command, value)); plus the typestate half: ioDelegate.Close is proved by contract (SMT) to remove an entry the command did not commit, Commit only sets the flag, and in every command no error return is reachable after Commit. Two defects were found and repaired (extract -v missing from the key; a failed run left a finalised entry).",
+   note="Not an SMT proof of bytes-equality of runs: the argument is structural (the output is a function of the primary input and of the values read after TryCache; all of them are in the key; entries are kept only for successful runs). Assumed: the digest of the primary input and the JSON payload encoding are injective enough (hash collisions ignored), secondary input files do not change between the digest and their use, cache.Open validates entries (that half is C13), deferred calls run as the Go spec says (defer is not executed in the model), flags.Context/Raise are external. Histories of 1..4 runs over a shared directory are covered only through this per-run argument (a hit replays bytes written by a committed identical-key run), not explored as sequences.", design='4/C14'),
+})
 not_app = {
  'C01': "string/grammar round trip through fmt, go-wrap and go-pars closures and global registries: no contract within reach expresses parse(print(x)) = x (DESIGN.md section 7)",
  'C17': "FASTA writer/reader behaviour lives in three external string libraries joined by a closure; nothing in /repo to put a provable contract on (DESIGN.md section 7)",
@@ -75,9 +81,9 @@ for pid in ids:
           "evidence_file": f"/verif/evidence/{pid}.json",
           "replay_cmd_template": "cat {path}   # the replay file carries the failing input, the observed result and a ready-to-run in-package test (test_source/test_command)",
           "engine": "gvc",
-          "level_claimed": {"category": "proof", "text": c['text'], "design_ref": c['design']},
+          "level_claimed": {"category": c.get('category', 'proof'), "text": c['text'], "design_ref": c['design']},
           "level_note": c['note'],
-          "technique": "contract-based deductive verification: weakest-precondition VCs generated from /repo's typed AST against //@ contracts, discharged by z3/cvc5",
+          "technique": ("def-use reads-frame analysis over the typed AST plus contract-based deductive verification of ioDelegate.Close/Commit (z3/cvc5)" if pid == 'C14' else "contract-based deductive verification: weakest-precondition VCs generated from /repo's typed AST against //@ contracts, discharged by z3/cvc5"),
         })
 na = []
 for pid in ids:
